@@ -9,6 +9,7 @@
 // integer arithmetic on the exported MeshGL64 and, for a sample, once more by
 // TLC on the recorded mesh (Hull3_Trace.cfg).
 #include <array>
+#include <chrono>
 #include <random>
 
 #include "common.h"
@@ -217,6 +218,20 @@ struct Runner {
       in.insert(in.end(), in2.begin(), in2.end());
       checkHull("Hull({h,h})", Manifold::Hull(two), in, true, ext, vol6, false);
     }
+    if (c.contains("split") && c["split"].size() == 2) {
+      // Hull(vector<Manifold>) of two hulls that each lack one extreme point of P
+      std::vector<Manifold> parts;
+      std::vector<vec3> in;
+      for (auto& part : c["split"]) {
+        std::vector<vec3> q;
+        for (auto& p : part) q.push_back(vec3(p[0].get<double>(), p[1].get<double>(), p[2].get<double>()));
+        if (perm == 1) std::reverse(q.begin(), q.end());
+        parts.push_back(Manifold::Hull(q));
+        auto v = ExportVerts(parts.back());
+        in.insert(in.end(), v.begin(), v.end());
+      }
+      checkHull("Hull({Hull(P1),Hull(P2)})", Manifold::Hull(parts), in, true, ext, vol6, false);
+    }
   }
 
   void runCells(const json& c) {
@@ -420,6 +435,7 @@ int HullMain(int argc, char** argv) {
   long nfail = 0, nontrivial = 0;
   for (long i = from; i < (long)cases.size(); i++) {
     out.line({{"begin", i}});
+    const auto t0 = std::chrono::steady_clock::now();
     Runner r{Window{(int)args.num("K", 4)}, (int)args.num("perm", 0), args.has("mesh")};
     const std::string kind = cases[i]["kind"];
     if (kind == "pts")
@@ -430,6 +446,7 @@ int HullMain(int argc, char** argv) {
       r.runMink(cases[i]);
     if (!r.fails.empty()) nfail++;
     nontrivial += r.nontrivial;
+    r.info["ms"] = (long)std::chrono::duration_cast<std::chrono::milliseconds>(std::chrono::steady_clock::now() - t0).count();
     json line = {{"i", i}, {"fail", r.fails}, {"nontrivial", r.nontrivial}, {"info", r.info}};
     if (!r.obs.empty()) line["obs"] = r.obs;
     out.line(line);
